@@ -330,6 +330,21 @@ class C2R(Contract):
         return r
 
 
+parent_of7 = z3.Function("parent_of", z3.IntSort(), z3.IntSort())
+
+
+class C2P(Contract):
+    """map_indices_child2parent (C04): result[k] == parent_of(child_indices[k]) -- indices in the *parent*, which is
+    the root only for a child of depth 1"""
+    name = "map_indices_child2parent"
+
+    def __call__(self, interp, child=None, child_indices=None):
+        ci = npmodel.as_arr(interp, child_indices)
+        r = models.arr_new(interp, ci.n, lambda k: parent_of7(ci.sel(k)), "int")
+        r.item_shape = ()
+        return r
+
+
 class RootParent(Contract):
     name = "DS.get_root_parent"
     trusted = True
@@ -358,7 +373,8 @@ class ExportBasins(C02.ExportHdf5):
         self.source = source
         C02.ExportHdf5.__init__(self, "hierarchy" if source.startswith("hierarchy") else "hdf5", filtered)
         self.name = f"Export.hdf5[basins, source {source}, {'filtered' if filtered else 'unfiltered'}]"
-        self.callees.update({"map_indices_child2root": C2R(), "DS.get_root_parent": RootParent(),
+        self.callees.update({"map_indices_child2root": C2R(), "map_indices_child2parent": C2P(),
+                             "DS.get_root_parent": RootParent(),
                              "BasinObj.as_dict": AsDict()})
 
     def inputs(self, ctx):
@@ -539,7 +555,8 @@ def replay(unit_name, inp, obligation=""):
     import dclab.rtdc_dataset.export as e
     if "hierarchy+" in unit_name:
         # the child of a file that has basins itself (second export of the chain)
-        inp = dict(inp, hierarchy=True, hierarchy_at=1, depth=max(2, int(inp.get("depth", 2))))
+        inp = dict(inp, hierarchy=True, hierarchy_at=1, depth=max(2, int(inp.get("depth", 2))),
+                   grandchild=inp.get("grandchild", int(inp.get("seed", 1)) % 2 == 0))
     n = int(inp.get("n", 12))
     seed = int(inp.get("seed", 1))
     rng = np.random.RandomState(seed)
@@ -576,6 +593,16 @@ def replay(unit_name, inp, obligation=""):
                         ch.apply_filter()
                         ids = ids[filt][filt2]
                         exp_ds = ch
+                        if inp.get("grandchild") and len(ids) > 1:
+                            # export from a child of depth 2: its root indices are not its parent's indices
+                            ch2 = dclab.new_dataset(ch)
+                            filt3 = rng.rand(len(ch2)) > 0.3
+                            if not filt3.any():
+                                filt3[0] = True
+                            ch2.filter.manual[:] = filt3
+                            ch2.apply_filter()
+                            ids = ids[filt3]
+                            exp_ds = ch2
                     else:
                         ds.filter.manual[:] = filt
                         ds.apply_filter()
@@ -626,3 +653,5 @@ def bounded_inputs(unit_name, rng):
                     yield {"n": 14, "seed": seed, "depth": depth, "hierarchy": hier, "move": move}
                     if hier and depth > 1:
                         yield {"n": 14, "seed": seed, "depth": depth, "hierarchy": hier, "move": move, "hierarchy_at": 1}
+                        yield {"n": 20, "seed": seed, "depth": depth, "hierarchy": hier, "move": move, "hierarchy_at": 1,
+                               "grandchild": True}
